@@ -221,7 +221,7 @@ func (p *Program) detectHelpers(frozen NameTable) {
 			}
 			owners[top] = true
 		}
-		if owners[f] || len(owners) == 0 || len(owners) > 4 {
+		if owners[f] || len(owners) == 0 || len(owners) > 8 {
 			return nil
 		}
 		return owners
